@@ -56,6 +56,25 @@ def special_case(rng, i):
                 v = {f"k{lvl}": v, "n": lvl}
             smp = v
         return {"profile": "deep", "samples": [smp]}
+    elif i % 60 == 23:
+        # long arrays (257-1200 items) whose deviating item - another scalar type, null, an object with a new key, an object lacking
+        # a key - comes late: nothing about a list may be decided from a prefix of it
+        n = rng.choice([257, 300, 513, 1025, 1200])
+        kind = rng.choice(["scalars", "objects", "strings"])
+        if kind == "scalars":
+            arr = [rng.randrange(100) for _ in range(n)]
+            arr[rng.randrange(256, n)] = rng.choice(["n/a", None, 2.5, [1], {"v": 1}])
+        elif kind == "strings":
+            arr = [str(rng.randrange(100)) for _ in range(n)]
+            arr[rng.randrange(256, n)] = rng.choice(["n/a", None, "2.5", 7])
+        else:
+            arr = [{"id": j, "name": "s"} for j in range(n)]
+            j = rng.randrange(256, n)
+            arr[j] = rng.choice([{"id": j, "name": "s", "late_key": 1}, {"id": j}, {"id": None, "name": "s"}, {"id": "x", "name": "s"}])
+        smp = {"values": arr, "k": 1}
+        if rng.random() < 0.3:
+            smp = {"wrap": smp, "n": 1}
+        return {"profile": "longlist", "samples": [smp]}
     return None
 
 
@@ -66,6 +85,8 @@ def adjust_opts(jc, opts):
         opts["merge"] = list(opts["merge"]) + [["exact"]]
     if jc["profile"] == "deep":
         opts["merge"], opts["dkr"], opts["dkf"] = [], [], []
+    if jc["profile"] == "longlist":
+        opts["dkr"], opts["dkf"] = [], []
 
 
 def maybe_second_root(rng, samples, profile, p=0.15):
